@@ -1,4 +1,4 @@
-\* generated by the builder of C02/C08; see MCSearchers.tla for the families
+\* generated with the builder script of C02/C08; families: MCSearchers.tla
 SPECIFICATION Spec
 CONSTANTS
   SegSizes <- Segs0
@@ -8,7 +8,9 @@ CONSTANTS
   HeapTakeover = 10
   MaxCalls = 1
   NTerms = 1
-  Queries <- QTerm
+  Family = "term"
+  DropK1 = FALSE
+  Queries <- MCQueries
   FirstAdvanceOK <- FirstAdvAlways
 VIEW View
 INVARIANT NoPanic
